@@ -267,3 +267,98 @@ def duo_valid(progeny: A[iN, 1], parent: A[iN, 1], tau: int, lambda_: float) -> 
             unfold(DUOC(progeny, parent, i, n, True), DUOC(progeny, parent, i, n, False))
     with exit_():
         lemma_duosum(constraint_p, progeny, parent, n, lambda_ > 0.0, n)
+
+
+# ---- the gamete enumeration: one step ----------------------------------------------------------------------------
+
+
+@contract("mchap.pedigree.prior.increment_dosage", machine_ints=True, may_raise=True, props=["C17"])
+def increment_dosage(dosage: A[iN, 1], constraint: A[iN, 1]):
+    requires(n >= 1, n <= 2 ** 20, len(constraint) == n)
+    requires(forall(0, n, lambda x: 0 <= dosage[x] and dosage[x] <= constraint[x]), ISUM(dosage, 0, n) >= 1, ISUM(constraint, 0, n) <= 2 ** 40)
+    modifies(dosage)
+    # C17 (on normal return; the ValueError at the end of the enumeration is left unspecified): the next gamete is again a
+    # sub-multiset within the constraint with the same number of copies, and it is strictly smaller in lexicographic order
+    # (one position k lost exactly one copy, everything left of k is untouched) -- so the enumeration never leaves
+    # the set of admissible gametes, never repeats a gamete and terminates
+    ensures(forall(0, n, lambda x: 0 <= dosage[x] and dosage[x] <= constraint[x]))
+    ensures(ISUM(dosage, 0, n) == ISUM(old(dosage), 0, n))
+    ensures(exists(lambda k: 0 <= k and k < n and dosage[k] == old(dosage)[k] - 1 and forall(0, k, lambda x: dosage[x] == old(dosage)[x]), witness=(i,)))
+    with defs():
+        n = len(dosage)
+    with entry():
+        S0 = ISUM(dosage, 0, n)
+        lemma_isum_pointwise_le(dosage, constraint, 0, n)
+        lemma_isum_zero(dosage, n, n)
+        lemma_isum_split(dosage, 0, n, n)
+        with forall_intro(x, 0, n, ISUM(constraint, x, n) >= 0 and ISUM(constraint, 0, x) >= 0):
+            lemma_isum_nonneg(constraint, x, n)
+            lemma_isum_nonneg(constraint, 0, x)
+    with loop(0):
+        decreases(i)
+        invariant(0 <= i, i < n, max_ploidy == n, change == 0, val(dosage) == old(dosage))
+        invariant(forall(i + 1, n, lambda x: dosage[x] == 0), ISUM(dosage, 0, i + 1) >= 1)
+        with head():
+            unfold(ISUM(dosage, 0, i + 1))
+            unfold(ISUM(dosage, 0, 0))
+    with before_stmt("dosage[i] -= 1", 0):
+        SN = val(dosage)
+    with after_stmt("dosage[i] -= 1", 0):
+        lemma_isum_upd(SN, dosage, 0, n, i)
+        K = i
+    with loop(1):
+        decreases(n - j)
+        invariant(i == K, i < j, j <= n, 0 <= change, change <= 1, ISUM(dosage, 0, n) + change == S0)
+        invariant(forall(0, n, lambda x: 0 <= dosage[x] and dosage[x] <= constraint[x]))
+        invariant(forall(0, i, lambda x: dosage[x] == old(dosage)[x]), dosage[i] == old(dosage)[i] - 1)
+        invariant(implies(change > 0, forall(i + 1, j, lambda x: constraint[x] == 0) and forall(i + 1, n, lambda x: dosage[x] == 0)))
+    with before_stmt("dosage[j] += 1"):
+        SN = val(dosage)
+    with after_stmt("dosage[j] += 1"):
+        lemma_isum_upd(SN, dosage, 0, n, j)
+    with before_stmt("dosage[i] = 0", 0):
+        SN = val(dosage)
+    with after_stmt("dosage[i] = 0", 0):
+        lemma_isum_upd(SN, dosage, 0, n, i)
+    with after_stmt("space = constraint[i]"):
+        lemma_isum_zero(constraint, i + 1, n)
+        lemma_isum_peel_left(constraint, i, n)
+        lemma_isum_split(constraint, 0, i, n)
+    with loop(2):
+        decreases(i + ite(searching, 1, 0))
+        invariant(0 <= i, i < n, change >= 1, ISUM(dosage, 0, n) + change == S0, 0 <= space, space <= ISUM(constraint, 0, n))
+        invariant(forall(0, n, lambda x: 0 <= dosage[x] and dosage[x] <= constraint[x]))
+        invariant(forall(0, i, lambda x: dosage[x] == old(dosage)[x]))
+        invariant(implies(searching, space == ISUM(constraint, i, n) and forall(i, n, lambda x: dosage[x] == 0)))
+        invariant(implies(not searching, change <= ISUM(constraint, i + 1, n) and forall(i + 1, n, lambda x: dosage[x] == 0) and dosage[i] == old(dosage)[i] - 1))
+        with head():
+            if i >= 1:
+                lemma_isum_peel_left(constraint, i - 1, n)
+                lemma_isum_split(constraint, 0, i - 1, n)
+            lemma_isum_split(constraint, 0, i, n)
+            lemma_isum_nonneg(dosage, 0, n)
+            if i >= 1:
+                lemma_isum_ge(dosage, 0, n, i - 1)
+    with before_stmt("dosage[i] -= 1", 1):
+        SN = val(dosage)
+    with after_stmt("dosage[i] -= 1", 1):
+        lemma_isum_upd(SN, dosage, 0, n, i)
+    with before_stmt("dosage[i] = 0", 1):
+        SN = val(dosage)
+    with after_stmt("dosage[i] = 0", 1):
+        lemma_isum_upd(SN, dosage, 0, n, i)
+    with loop(3):
+        decreases(n - j)
+        invariant(0 <= i, i < j, j <= n, 0 <= change, change <= ISUM(constraint, j, n), ISUM(dosage, 0, n) + change == S0)
+        invariant(forall(0, n, lambda x: 0 <= dosage[x] and dosage[x] <= constraint[x]), forall(j, n, lambda x: dosage[x] == 0))
+        invariant(forall(0, i, lambda x: dosage[x] == old(dosage)[x]), dosage[i] == old(dosage)[i] - 1)
+        with head():
+            if j >= n:
+                unfold(ISUM(constraint, j, n))
+            else:
+                lemma_isum_peel_left(constraint, j, n)
+                lemma_isum_nonneg(constraint, j + 1, n)
+    with before_stmt("dosage[j] += value"):
+        SN = val(dosage)
+    with after_stmt("dosage[j] += value"):
+        lemma_isum_upd(SN, dosage, 0, n, j)
